@@ -8,7 +8,7 @@ Literal mirror of
   (tables regenerated into `S3V.Gen.Errors` on every run; this file adds the `Custom` arms),
 * `crates/s3s/src/error/mod.rs` — `S3ErrorCode::as_str`, `S3Error::status_code`,
   `impl xml::SerializeContent for S3Error`,
-* `crates/s3s/src/xml/ser.rs` + quick-xml 0.37 — `Serializer::{decl, content}`, `BytesText::new` (= `escape`),
+* `crates/s3s/src/xml/ser.rs` + quick-xml 0.37 — `Serializer::{decl, content}`, `text` (= `escape`, then CR → `&#13;`),
 * `crates/s3s/src/http/ser.rs` — `set_xml_body[_no_decl]`,
 * `crates/s3s/src/ops/mod.rs` — `serialize_error`, `fmt_content_length`.
 
@@ -73,13 +73,16 @@ def S3Error.status (e : S3Error) : Option Nat :=
 
 /-! ## XML writer -/
 
-/-- quick-xml `escape`: the five predefined entities, everything else verbatim -/
+/-- `xml::ser::text`: quick-xml `escape` (the five predefined entities), then every U+000D replaced by the
+    character reference `&#13;` (a literal CR would reach an XML reader as LF, XML 1.0 §2.11);
+    everything else verbatim -/
 def escByte (c : UInt8) : Bytes :=
   if c = 60 then [38, 108, 116, 59]                    -- `<`  → `&lt;`
   else if c = 62 then [38, 103, 116, 59]               -- `>`  → `&gt;`
   else if c = 38 then [38, 97, 109, 112, 59]           -- `&`  → `&amp;`
   else if c = 39 then [38, 97, 112, 111, 115, 59]      -- `'`  → `&apos;`
   else if c = 34 then [38, 113, 117, 111, 116, 59]     -- `"`  → `&quot;`
+  else if c = 13 then [38, 35, 49, 51, 59]             -- CR   → `&#13;`
   else [c]
 
 def escape : Bytes → Bytes
